@@ -35,13 +35,20 @@ ArgClasses(a) == {<<"grid">>, <<"inside">>} \cup
 \* wavelength availability in the repository for the line asked for
 WlStates == {"both", "element_only", "isotope_only", "none"}
 
+\* axes a stored table may give as a single point (the beam classes fall back to constants / 1-D interpolators per axis)
+SingleAxes(a) == CASE a \in {"beam_stopping_rate", "beam_population_rate", "beam_emission_pec"} -> {"e", "n"}
+                   [] a = "beam_cx_pec" -> {"eb", "ti", "ni", "z", "b"}
+                   [] OTHER -> {}
 Cases == {c \in [acc : Accessors, species : {"element", "isotope"}, present : BOOLEAN, wl : WlStates,
                  extrap : BOOLEAN, null : BOOLEAN, fallback : BOOLEAN, arg : UNION {ArgClasses(a) : a \in Accessors},
-                 shape : {"full", "single"}] :
+                 shape : SUBSET {"e", "n", "eb", "ti", "ni", "z", "b"}] :
             /\ c.arg \in ArgClasses(c.acc)
             /\ (~Acc[c.acc].photon => c.wl = "both")                       \* wavelength irrelevant
-            /\ (c.shape = "single" => c.acc \in {"beam_stopping_rate", "beam_population_rate", "beam_emission_pec", "beam_cx_pec"})
-            /\ (c.shape = "single" => c.arg[1] \in {"grid", "nonpos"})}
+            /\ c.shape \subseteq SingleAxes(c.acc)                         \* shape = the set of single-point axes of the stored table
+            \* partial single-point layouts are explored for the plain lookup only, none / all with every flag combination
+            /\ (c.shape \notin {{}, SingleAxes(c.acc)} => c.present /\ c.wl = "both" /\ ~c.null /\ ~c.fallback)
+            \* the range policy of a single-point axis itself is not in the statement
+            /\ (c.arg[1] \in {"below", "above"} => c.arg[2] \notin c.shape)}
 
 \* which stored wavelength the photon->power conversion must use: the requested species' own, else (isotope, fallback on) its element's
 WlUsed(c) == IF c.species = "element" THEN (IF c.wl \in {"both", "element_only"} THEN "element" ELSE "missing")
